@@ -224,6 +224,7 @@ async fn run_engine(script: Value, out_path: String) -> i32 {
     let nshards = eng.shared.len();
     emit(&mut out, json!({"i": -1, "op": "opened", "t": clk.t, "live": (0..nshards).map(|s| eng.live(s)).collect::<Vec<_>>()}));
     let steps = script["steps"].as_array().cloned().unwrap_or_default();
+    let mut stored_total = 0u64; // STOREs acknowledged in this lifetime
     for (i, st) in steps.iter().enumerate() {
         let op = st["op"].as_str().unwrap_or("");
         let tag = st.get("tag").cloned().unwrap_or(Value::Null);
@@ -280,8 +281,16 @@ async fn run_engine(script: Value, out_path: String) -> i32 {
                         problem = json!({"k": k0 + j, "resp": o, "flush_errors": errs.iter().map(|(s, e)| json!([s, e])).collect::<Vec<_>>()});
                     }
                 }
+                // the WAL task is fed through a channel: wait until it has appended every acknowledged STORE of this
+                // lifetime (hook "wal.appended" counts them), so that a crash step loses nothing that was applied
+                stored_total += acked;
+                let deadline = std::time::Instant::now() + std::time::Duration::from_secs(120);
+                while snel_db::verif::count("wal.appended") < stored_total && std::time::Instant::now() < deadline {
+                    tokio::time::sleep(std::time::Duration::from_millis(1)).await;
+                }
+                let wal_synced = snel_db::verif::count("wal.appended") >= stored_total;
                 emit(&mut out, json!({"i": i, "op": "burst", "tag": tag, "t": clk.t, "shard": shard, "k0": k0, "n": n,
-                                      "reads": reads, "waits": waits, "acked": acked, "problem": problem}));
+                                      "reads": reads, "waits": waits, "acked": acked, "problem": problem, "wal_synced": wal_synced}));
             }
             "observe" => {
                 // whole-store read-back of (k, event_id): plain QUERY, QUERY RETURN [k], REPLAY per context,
